@@ -64,6 +64,11 @@ Record module := { m_name : str; m_default : perm; m_decls : list decl;
 (* is the scope reached by get_deps (see [deps] below); is it the body of an interface *)
 Definition counted_kind (k : nkind) : bool := match k with NRoutine | NIfBody => true | _ => false end.
 Definition counted (S : nscope) : bool := forallb counted_kind (s_kinds S).
+(* find_used_modules visits `routines` and the procedures of `interfaces` (generic or not), never
+   `absinterfaces`: the USE statements of an abstract interface body keep the module name as a
+   string and are skipped by correlate *)
+Definition uses_resolved (S : nscope) : bool :=
+  forallb (fun k => match k with NAbsBody => false | _ => true end) (s_kinds S).
 Definition is_body (S : nscope) : bool :=
   match last (s_kinds S) NRoutine with NRoutine => false | _ => true end.
 
@@ -164,8 +169,10 @@ Definition as_module (M : module) (S : nscope) : module :=
   {| m_name := m_name M; m_default := Public; m_decls := s_decls S; m_access := []; m_uses := s_uses S;
      m_nested := [] |}.
 Definition nested_imports_model (c : cls) (g : graph) (order : list str) (M : module) (S : nscope) : table :=
-  snd (fold_left (use_step g (as_module M S) (st_tabs (correlate_all c g (before (m_name M) order))))
-                 (s_uses S) ([], [])).
+  if uses_resolved S
+  then snd (fold_left (use_step g (as_module M S) (st_tabs (correlate_all c g (before (m_name M) order))))
+                      (s_uses S) ([], []))
+  else [].
 (* the hosts of S inside M (S included): the nested scopes whose path is a prefix of S's *)
 Fixpoint prefix_b (a b : list str) : bool :=
   match a, b with
@@ -360,8 +367,9 @@ Definition region_only_empty_m (M : module) : bool :=
 (* 4: an ONLY list naming the same entity twice ( only: foo, bar => foo ) *)
 Definition region_only_dup_m (M : module) : bool :=
   existsb (fun u => match u_only u with Some items => negb (nodup_b (map snd items)) | None => false end) (m_uses M).
-(* 5: a USE statement in the body of an abstract interface or of a generic interface block (or
-      below one): get_deps does not see it, so the module may be correlated before the used one *)
+(* 5: a USE statement in the body of an abstract interface (never matched to a module object) or
+      of a generic interface block (get_deps does not see it, so the module may be correlated
+      before the used one has merged its imports) *)
 Definition region_uncounted_m (M : module) : bool :=
   existsb (fun S => negb (counted S) && negb (match s_uses S with [] => true | _ => false end)) (m_nested M).
 (* the regions 1, 3, 4 are about USE statements wherever they stand: the statements of nested
